@@ -257,6 +257,15 @@ theorem translated_expand_sample_size_eq (n m : Int) (hm : 0 < m) :
     flatten_replicate_singleton]
   by_cases h : n % m = 0 <;> simp [h]
 
+/-- TRANSLATION TIE: `expand_sample_sizes` (its three comprehensions, the `zip`, the nested `for _ in range(multi)`)
+    regenerated from the current Python source is the model's `expandSampleSizes`, for every list of opaque circuits, every
+    list of counts and every positive maximum – so `expand_sum`, `expand_bounds` and `expand_then_combine` speak about
+    what the code says now. -/
+theorem translated_expand_sample_sizes_eq {α : Type} (cs : List α) (ns : List Int) (m : Int) (hm : 0 < m) :
+    OQ.Generated.Translated.expand_sample_sizes cs ns m = expandSampleSizes cs ns m := by
+  unfold OQ.Generated.Translated.expand_sample_sizes expandSampleSizes
+  simp only [translated_expand_sample_size_eq _ _ hm, List.map_id', range_map_const]
+
 /-! non-vacuity: concrete inputs meeting the hypotheses -/
 example : expandSampleSize 7 3 = ([3, 3, 1], 3) := by decide
 example : (expandSampleSizes ["a", "b"] [7, 6] 3).2.1 = [3, 3, 1, 3, 3] := by decide
